@@ -218,6 +218,12 @@ def var_exact_tol(rec):
         return None, "total weight - ddof not positive"
     mean = sum(x * w for x, w in zip(X, W)) / Wt
     S = sum(w * (x - mean) ** 2 for x, w in zip(X, W))
+    # the recurrence forms products of two deviations (times a weight): when the squared range of the data comes
+    # within a factor 16 of the largest finite value the intermediate products overflow although the variance itself
+    # may be representable - the counterpart of the guard of the central moments
+    rng2 = (max(X) - min(X)) ** 2
+    if rng2 * max(F(1), max(W)) > FMAX[ty] / 16:
+        return None, "overflow range"
     _, Es, _ = west_bound(X, W, u)
     err_den = n * u * Wt + u * abs(den)
     if den <= 2 * err_den:
